@@ -70,6 +70,7 @@ def gen_kind(k, ex):
     typ = k["typ"]
     encref, decref = "(*%s).MarshalBinary" % typ, "(*%s).UnmarshalBinary" % typ
     enc, dec = [], []          # clause bodies
+    accepts = []
     minlen = 0
     def both(items, v, d, data_e, data_d):
         nonlocal minlen
@@ -79,8 +80,8 @@ def gen_kind(k, ex):
             o = off.s()
             if op in ("u8", "u16", "u32", "u64"):
                 w = WIDTH[op]
-                enc.append("%s(%s, %s) == %s.%s" % (RD[w], data_e, o, v, f[1]))
-                dec.append("%s.%s == %s(%s, %s)" % (d, f[1], RD[w], data_d, o))
+                enc.append("%s(%s, %s) == uint%d(%s.%s)" % (RD[w], data_e, o, 8 * w, v, f[1]))
+                dec.append("uint%d(%s.%s) == %s(%s, %s)" % (8 * w, d, f[1], RD[w], data_d, o))
                 off.c += w
             elif op == "bool8":
                 enc.append("u8(%s, %s) == ite(%s.%s, 1, 0)" % (data_e, o, v, f[1]))
@@ -108,7 +109,13 @@ def gen_kind(k, ex):
                 n = {"mac": 6, "ip4": 4, "ip6": 16}.get(op) or int(f[1])
                 fld = f[-1]
                 enc.append("(len(%s.%s) == %d ==> bytes_eq(%s, %s, %s.%s, 0, %d))" % (v, fld, n, data_e, o, v, fld, n))
-                dec.append("len(%s.%s) == %d && bytes_eq(%s.%s, 0, %s, %s, %d)" % (d, fld, n, d, fld, data_d, o, n))
+                if op == "ip4":
+                    # net.IP: the 4-byte form or the 16-byte IPv4-in-IPv6 form hold the same address
+                    def eq4(base):
+                        return " && ".join("u8(%s.%s, %d) == u8(%s, %s)" % (d, fld, base + i, data_d, off.s(i)) for i in range(4))
+                    dec.append("((len(%s.%s) == 4 && %s) || (len(%s.%s) == 16 && %s))" % (d, fld, eq4(0), d, fld, eq4(12)))
+                else:
+                    dec.append("len(%s.%s) == %d && bytes_eq(%s.%s, 0, %s, %s, %d)" % (d, fld, n, d, fld, data_d, o, n))
                 off.c += n
             elif op == "arr":
                 n = int(f[1])
@@ -118,9 +125,23 @@ def gen_kind(k, ex):
                 off.c += n
             elif op == "pad":
                 n = int(f[1])
+                cond = " ".join(f[2:]).replace("{v}", v)
+                def zarr(m):
+                    return "(" + " && ".join("%s[%d] == 0" % (m.group(1), i) for i in range(int(m.group(2)))) + ")"
+                cond = re.sub(r"zarr\(([^,]+),(\d+)\)", zarr, cond)
                 for i in range(n):
-                    enc.append("u8(%s, %s) == 0" % (data_e, off.s(i)))
+                    c = "u8(%s, %s) == 0" % (data_e, off.s(i))
+                    # allzero(X) for byte i of the pad: only X[i] matters (allzero cannot stand left of ==>)
+                    ci = re.sub(r"allzero\(([^)]+)\)", lambda m: "(len(%s) > %d ==> %s[%d] == 0)" % (m.group(1), i, m.group(1), i), cond)
+                    enc.append("(%s ==> %s)" % (ci, c) if ci else c)
                 off.c += n
+            elif op == "total":
+                enc.append("len(%s) == %s" % (data_e, f[1]))
+                dec.append("size(%s) == %s" % (d, f[1]))
+            elif op == "accept":
+                accepts.append(" ".join(f[1:]).replace("{data}", data_d))
+            elif op == "any":
+                off.c += int(f[1])
             elif op == "oxmhdr":
                 fld = f[1]
                 enc.append("be32(%s, %s) == uint32(%s.%s.Class) * 65536 + uint32(%s.%s.Field) * 512 + ite(%s.%s.HasMask, 256, 0) + uint32(%s.%s.Length)" % (data_e, o, v, fld, v, fld, v, fld, v, fld))
@@ -154,6 +175,31 @@ def gen_kind(k, ex):
     ddata = dcd["params"][1] if dcd and len(dcd["params"]) > 1 else "data"
     derr = dcd["results"][0] if dcd and dcd["results"] else "err"
     both(k["items"], ev, dv, edata, ddata)
+    # fixed-size kinds: a decoder must succeed on every input that holds the whole element with the specified
+    # constants and length
+    ops = [f[0] for f, _ in k["items"]]
+    if not accepts and not any(o in ("enc", "list", "rest", "align8", "hdr") for o in ops) and "noaccept" not in k["flags"]:
+        conds, off = [], 0
+        for f, _ in k["items"]:
+            op = f[0]
+            if op in ("c8", "c16", "c32"):
+                conds.append("%s(%s, %d) == %s" % (RD[WIDTH[op]], ddata, off, f[1]))
+                off += WIDTH[op]
+            elif op == "len16":
+                if len(f) > 1 and f[1].isdigit():
+                    conds.append("be16(%s, %d) == %s" % (ddata, off, f[1]))
+                off += 2
+            elif op in WIDTH:
+                off += WIDTH[op]
+            elif op in ("mac", "ip4", "ip6"):
+                off += {"mac": 6, "ip4": 4, "ip6": 16}[op]
+            elif op in ("bytes", "arr", "pad", "any"):
+                off += int(f[1])
+            elif op == "total":
+                pass
+            elif op == "oxmhdr":
+                off += 4
+        accepts.append(" && ".join(["len(%s) >= %d" % (ddata, off)] + conds))
     enc2 = [c.replace("{V}", ev) for c in enc]
     dec2 = [c.replace("{V}", dv) for c in dec]
     out = []
@@ -175,6 +221,8 @@ def gen_kind(k, ex):
         out.append("")
     if "nodec" not in k["flags"] and dec2 and dcd:
         out.append("//@ also %s(%s) (%s) [C04]   // %s" % (decref, ", ".join(dcd["params"]), ", ".join(dcd["results"]), src))
+        for c in accepts:
+            out.append("//@   ensures[C04] %s ==> %s == nil" % (c, derr))
         for c in dec2:
             out.append("//@   ensures[C04] %s == nil ==> %s" % (derr, c))
         out.append("")
@@ -192,6 +240,8 @@ def main():
                  "// GENERATED by /verif/tools/gen_layout_contracts.py from /verif/spec/layouts.tbl - do not edit.",
                  "// Wire layouts written from the specifications, as postconditions on the real encoders (C03) and decoders (C04).",
                  "", "package " + pkg, ""]
+        if pkg == "openflow13":
+            lines += ["//@ property C03 min-obligations 600", "//@ property C04 min-obligations 300", ""]
         for k in ks:
             g = gen_kind(k, ex)
             total += sum(1 for l in g if "ensures[" in l)
